@@ -303,6 +303,9 @@ pub struct Transport {
     pub write_chunk: Option<usize>,
     pub splits: Vec<Split>,
     pub writes: Vec<WriteDev>,
+    /// the client writes the length prefix of every frame it sends with this many bytes (0 = the shortest form):
+    /// a VarInt may carry leading zero groups, `81 00` is 1 as much as `01` is
+    pub sb_len_pad: usize,
 }
 
 #[derive(Clone, Debug)]
@@ -512,6 +515,7 @@ struct Shared {
     segs: VecDeque<Seg>,
     splits: Vec<Split>,
     read_chunk: Option<usize>,
+    sb_len_pad: usize,
     emitted: usize,
     consumed: usize,
     cursor_at: Ms,
@@ -617,23 +621,44 @@ impl Shared {
         self.emitted += data.len();
     }
 
+    /// one frame as the client model built it; its length prefix is re-written in the padded form if the case says so
+    fn emit_frame(&mut self, framed: &[u8], g: Ms) {
+        let want = self.sb_len_pad.min(5);
+        if want == 0 {
+            return self.emit_bytes(framed, g);
+        }
+        let Ok((len, used)) = codec::get_varint(framed) else { return self.emit_bytes(framed, g) };
+        if used >= want || len < 0 {
+            return self.emit_bytes(framed, g);
+        }
+        let mut out = vec![];
+        let mut v = len as u32;
+        for k in 0..want {
+            let group = (v & 0x7f) as u8;
+            v >>= 7;
+            out.push(if k + 1 < want { group | 0x80 } else { group });
+        }
+        out.extend_from_slice(&framed[used..]);
+        self.emit_bytes(&out, g)
+    }
+
     fn emit_act(&mut self, act: &Act, g: Ms) {
         match act {
             Act::Handshake { proto, host, port, next } => {
-                self.emit_bytes(&codec::sb_handshake(*proto, host, *port, *next), g);
+                self.emit_frame(&codec::sb_handshake(*proto, host, *port, *next), g);
                 self.phase = match next {
                     1 => Phase::Status,
                     2 | 3 => Phase::Login,
                     _ => Phase::Handshake,
                 };
             }
-            Act::StatusRequest => self.emit_bytes(&codec::sb_status_request(), g),
-            Act::Ping(p) => self.emit_bytes(&codec::sb_ping(*p), g),
-            Act::LoginStart { name, uuid } => self.emit_bytes(&codec::sb_login_start(name, *uuid), g),
-            Act::Cookie { key, payload } => self.emit_bytes(&codec::sb_login_cookie_response(key, payload.as_deref()), g),
+            Act::StatusRequest => self.emit_frame(&codec::sb_status_request(), g),
+            Act::Ping(p) => self.emit_frame(&codec::sb_ping(*p), g),
+            Act::LoginStart { name, uuid } => self.emit_frame(&codec::sb_login_start(name, *uuid), g),
+            Act::Cookie { key, payload } => self.emit_frame(&codec::sb_login_cookie_response(key, payload.as_deref()), g),
             Act::EncResponse(kind) => {
                 let (s, t) = self.enc_response(kind);
-                self.emit_bytes(&codec::sb_encryption_response(&s, &t), g);
+                self.emit_frame(&codec::sb_encryption_response(&s, &t), g);
                 // from here on the client speaks ciphertext (if it has a usable secret)
                 let secret = match kind {
                     EncKind::SecretLen(n) if *n != 16 => None,
@@ -646,11 +671,11 @@ impl Shared {
                 }
             }
             Act::RealSleep(ms) => std::thread::sleep(std::time::Duration::from_millis(*ms)),
-            Act::LoginAck => self.emit_bytes(&codec::sb_login_ack(), g),
-            Act::ClientInfo { locale } => self.emit_bytes(&codec::sb_client_information(locale), g),
-            Act::Frame { id, body } => self.emit_bytes(&codec::frame(*id, body), g),
+            Act::LoginAck => self.emit_frame(&codec::sb_login_ack(), g),
+            Act::ClientInfo { locale } => self.emit_frame(&codec::sb_client_information(locale), g),
+            Act::Frame { id, body } => self.emit_frame(&codec::frame(*id, body), g),
             Act::Raw(b) => self.emit_bytes(b, g),
-            Act::KeepAlive(id) => self.emit_bytes(&codec::sb_keep_alive(*id), g),
+            Act::KeepAlive(id) => self.emit_frame(&codec::sb_keep_alive(*id), g),
             Act::Eof => self.hung_up = true,
             Act::Reset => {
                 self.hung_up = true;
@@ -716,13 +741,13 @@ impl Shared {
                     self.run_with_steps(at);
                 }
                 Sched::Echo(id) => {
-                    self.emit_bytes(&codec::sb_keep_alive(id), at);
+                    self.emit_frame(&codec::sb_keep_alive(id), at);
                     self.echo_log.push((at, id));
                     self.echo_arrivals.push((self.cursor_at, id));
                 }
                 Sched::Unsolicited => {
                     let uid = 0xdead_beef_0000 + self.unsolicited_sent as u64;
-                    self.emit_bytes(&codec::sb_keep_alive(uid), at);
+                    self.emit_frame(&codec::sb_keep_alive(uid), at);
                     self.echo_log.push((at, uid));
                     self.unsolicited_sent += 1;
                     if let Some(every) = self.unsolicited_every {
@@ -1286,6 +1311,7 @@ fn new_shared(case: &Case) -> Arc<Mutex<Shared>> {
         segs: VecDeque::new(),
         splits: case.transport.splits.clone(),
         read_chunk: case.transport.read_chunk,
+        sb_len_pad: case.transport.sb_len_pad,
         emitted: 0,
         consumed: 0,
         cursor_at: 0,
@@ -1347,6 +1373,10 @@ pub fn run_many(cases: &[Case]) -> Vec<Obs> {
         .build()
         .expect("runtime");
     let mut results: Vec<Option<(RunResult, Ms)>> = vec![None; cases.len()];
+    {
+        let (n, first) = (cases.len(), cases[0].clone());
+        common::case_begin(Box::new(move || format!("{n} connection(s); the first: script {:?}, transport {:?}, configuration {:?}, echo {:?}, adapters {:?}", first.script, first.transport, first.cfg, first.echo, first.adapters)));
+    }
     let outcome = std::panic::catch_unwind(std::panic::AssertUnwindSafe(|| {
         rt.block_on(async {
             let start = Instant::now();
@@ -1395,6 +1425,7 @@ pub fn run_many(cases: &[Case]) -> Vec<Obs> {
         })
     }));
     let max_alloc = alloc::disarm();
+    common::case_end();
     let panic_msg = outcome.err().map(|p| p.downcast_ref::<String>().cloned().or_else(|| p.downcast_ref::<&str>().map(|s| s.to_string())).unwrap_or_else(|| "panic".into()));
     drop(rt);
     shareds
